@@ -173,9 +173,10 @@ pub fn check_pair(sh: &mut Shard, r: &mut Rng, a: &IG, b: &IG, lat: &Lat, verbos
     }
     // containment without boundary contact: the branch where only the containment test can find distance 0
     if d2.is_zero() {
-        let rel = model::relate(&ma, &mb);
-        if rel.m[1][1] < 0 && rel.m[1][0] < 0 && rel.m[0][1] < 0 {
-            sh.class("zero_by_containment_only");
+        if let Ok(rel) = guard(|| model::relate(&ma, &mb)) {
+            if rel.m[1][1] < 0 && rel.m[1][0] < 0 && rel.m[0][1] < 0 {
+                sh.class("zero_by_containment_only");
+            }
         }
     }
     let mut h = Fnv::new();
@@ -294,7 +295,7 @@ pub fn run(ctx: &Ctx, sh: &mut Shard) {
             continue;
         }
         let (a, b, lat) = if k % 6 == 5 { gen_in_hole(&mut r) } else { super::c01::gen_case(&mut r) };
-        if a.n_segments() + b.n_segments() > 90 {
+        if a.n_segments() + b.n_segments() > 700 {
             continue;
         }
         check_pair(sh, &mut r, &a, &b, &lat, false);
